@@ -35,6 +35,13 @@
      - a shape operand must satisfy the Shape class invariant (boolean [wfb], = Shape.ShapeSpec.wf):
        C09 proves that every rule preserves it, RealProofs.real_reachable_wf that every tensor a
        program computes has it;
+     - what the TABLE does not contain is not in the instance either: the data-length check of
+       input_tensor / input_node (Device::reset_tensor_by_vector, called from
+       new_tensor_by_vector, and the constructor of operators::Input) is a nested call the
+       translator does not see; the model accepts a data vector of the wrong length in BOTH APIs
+       where the code rejects it in both, at that call (exercised on the real code by C10's
+       wrong-size-data block); hence no "data length = element count" theorem is stated here
+       (writes-exactly-once / in-bounds of the kernel programs are C11's theorems);
      - the table names the two shape expressions of the special rows only as FWD_SHAPE(class) and
        shape_of_composite(function); the operands are read off the signature of the environment:
        [tensor; u32; u32] = split, [tensor; u32] = batch::split, [tensor; tensor; u32] = dense
